@@ -51,6 +51,8 @@ def formatDev (size cb ro : Nat) (fmtBs : Nat) (p : Params) : Outcome Dev := do
     | some r => .ok r
     | none => .panic "header.rs:format_qcow2:refblock-index")
   let info ← Info.new { clusterBits := cb, refcountOrder := ro, size := size, hasBackingName := false } p
+  -- `Qcow2Dev::new` refuses images without L1 table (size 0) or refcount table
+  if ramL1Len size cb p.bsBits = 0 ∨ mp.rtClusters = 0 then .err .invalid else
   .ok { info := info, version := 3,
         hdrL1Off := mp.l1Off, hdrL1Entries := mp.l1Entries,
         hdrRtOff := mp.rtOff, hdrRtClusters := mp.rtClusters,
